@@ -14,29 +14,37 @@ package lrsclient
 
 //@ func (*rpcCountData).incrSucceeded
 //@   prop C50
-//@   ensures *rcd.succeeded == old(*rcd.succeeded)+1 && ncalls("AddUint64") == 1
+//@   ensures *rcd.succeeded == old(*rcd.succeeded)+1
+//@   assert at return end ncalls("AddUint64") == 1
 //@ func (*rpcCountData).incrErrored
 //@   prop C50
-//@   ensures *rcd.errored == old(*rcd.errored)+1 && ncalls("AddUint64") == 1
+//@   ensures *rcd.errored == old(*rcd.errored)+1
+//@   assert at return end ncalls("AddUint64") == 1
 //@ func (*rpcCountData).incrIssued
 //@   prop C50
-//@   ensures *rcd.issued == old(*rcd.issued)+1 && ncalls("AddUint64") == 1
+//@   ensures *rcd.issued == old(*rcd.issued)+1
+//@   assert at return end ncalls("AddUint64") == 1
 //@ func (*rpcCountData).incrInProgress
 //@   prop C50
-//@   ensures *rcd.inProgress == old(*rcd.inProgress)+1 && ncalls("AddUint64") == 1
+//@   ensures *rcd.inProgress == old(*rcd.inProgress)+1
+//@   assert at return end ncalls("AddUint64") == 1
 //@ func (*rpcCountData).decrInProgress
 //@   prop C50
-//@   ensures *rcd.inProgress == old(*rcd.inProgress)-1 && ncalls("AddUint64") == 1
+//@   ensures *rcd.inProgress == old(*rcd.inProgress)-1
+//@   assert at return end ncalls("AddUint64") == 1
 
 //@ func (*rpcCountData).loadAndClearSucceeded
 //@   prop C50
-//@   ensures result == old(*rcd.succeeded) && *rcd.succeeded == 0 && ncalls("SwapUint64") == 1
+//@   ensures result == old(*rcd.succeeded) && *rcd.succeeded == 0
+//@   assert at return 1 ncalls("SwapUint64") == 1
 //@ func (*rpcCountData).loadAndClearErrored
 //@   prop C50
-//@   ensures result == old(*rcd.errored) && *rcd.errored == 0 && ncalls("SwapUint64") == 1
+//@   ensures result == old(*rcd.errored) && *rcd.errored == 0
+//@   assert at return 1 ncalls("SwapUint64") == 1
 //@ func (*rpcCountData).loadAndClearIssued
 //@   prop C50
-//@   ensures result == old(*rcd.issued) && *rcd.issued == 0 && ncalls("SwapUint64") == 1
+//@   ensures result == old(*rcd.issued) && *rcd.issued == 0
+//@   assert at return 1 ncalls("SwapUint64") == 1
 // in-progress calls are read, never reset, by a report
 //@ func (*rpcCountData).loadInProgress
 //@   prop C50
@@ -59,13 +67,13 @@ package lrsclient
 //@   prop C50
 //@   assert at call incrInProgress#1 ncalls("incrIssued") == 0
 //@   assert at call incrIssued#1 ncalls("incrInProgress") == 1
-//@   ensures ncalls("incrInProgress") == 1 && ncalls("incrIssued") == 1
+//@   assert at return end ncalls("incrInProgress") == 1 && ncalls("incrIssued") == 1
 
 //@ func (*PerClusterReporter).CallFinished
 //@   prop C50
 //@   assert at call incrSucceeded#1 err == nil && ncalls("decrInProgress") == 1 && ncalls("incrErrored") == 0
 //@   assert at call incrErrored#1 err != nil && ncalls("decrInProgress") == 1 && ncalls("incrSucceeded") == 0
-//@   ensures ncalls("decrInProgress") == ncalls("incrSucceeded") + ncalls("incrErrored")
+//@   assert at return end ncalls("decrInProgress") == 1 && ncalls("incrSucceeded") + ncalls("incrErrored") == 1
 
 // One locality in a report (stats$2 is the callback of localityRPCCount.Range):
 // each counter is taken exactly once; when nothing at all is reported for the
@@ -76,10 +84,12 @@ package lrsclient
 //@   assert at return 1 succeeded == 0 && inProgress == 0 && errored == 0 && issued == 0 && ncalls("Range") == 0
 //@   assert at call Range#1 !(succeeded == 0 && inProgress == 0 && errored == 0 && issued == 0)
 //@   assert at call Range#1 ld.requestStats.succeeded == succeeded && ld.requestStats.errored == errored && ld.requestStats.inProgress == inProgress && ld.requestStats.issued == issued
-//@   ensures ncalls("loadAndClearSucceeded") == 1 && ncalls("loadAndClearErrored") == 1 && ncalls("loadAndClearIssued") == 1 && ncalls("loadInProgress") == 1
+//@   assert at return 1 ncalls("loadAndClearSucceeded") == 1 && ncalls("loadAndClearErrored") == 1 && ncalls("loadAndClearIssued") == 1 && ncalls("loadInProgress") == 1
+//@   assert at return 2 ncalls("loadAndClearSucceeded") == 1 && ncalls("loadAndClearErrored") == 1 && ncalls("loadAndClearIssued") == 1 && ncalls("loadInProgress") == 1 && ncalls("Range") == 1
 
 // One server-load name of a reported locality (stats$2$1): taken exactly once,
 // reported with both parts unless nothing was recorded.
 //@ func (*PerClusterReporter).stats$2$1
 //@   prop C50
-//@   ensures ncalls("loadAndClear") == 1
+//@   assert at return 1 ncalls("loadAndClear") == 1 && count == 0
+//@   assert at return 2 ncalls("loadAndClear") == 1 && count != 0
